@@ -161,7 +161,8 @@ class SimConn:
         self._c2s_last = 0.0
         self._s2c = collections.deque()
         self._s2c_last = 0.0
-        self._paused_q = collections.deque()
+        self._rx_due = collections.deque()
+        self._rx_scheduled = False
         # server side state
         self.server_closed = False
         self.raw_mode = False  # SASL v0 raw tokens
@@ -294,7 +295,7 @@ class SimConn:
 
     def _queue_s2c(self, item, now):
         gap = self.net.latency(self, "s2c")
-        t = max(self._s2c_last, now + gap)
+        t = max(self._s2c_last + 1e-6, now + gap)
         self._s2c_last = t
         self._s2c.append(item)
         self.world.loop.call_at(t, self._deliver_s2c, context=self._client_ctx())
@@ -313,39 +314,64 @@ class SimConn:
         self.endpoint.on_conn_closed(self)
 
     def _deliver_s2c(self):
+        """A network event became due.  Like a selector loop, the client sees at
+        most one read event per connection per loop iteration: data that is due
+        together is read in one recv(), and EOF / RST are only noticed on a later
+        iteration than the data before them (so the protocol's reader task always
+        gets to run in between)."""
         item = self._s2c.popleft()
         if self.client_lost:
             return
-        if self.transport._paused:
-            self._paused_q.append(item)
-            return
-        self._apply_s2c(item)
+        self._rx_due.append(item)
+        if not self._rx_scheduled:
+            self._rx_scheduled = True
+            self.world.loop.call_soon(self._rx_pump, context=self._client_ctx())
 
     def _flush_paused(self):
-        while self._paused_q and not self.transport._paused and not self.client_lost:
-            self._apply_s2c(self._paused_q.popleft())
+        if self._rx_due and not self._rx_scheduled and not self.client_lost:
+            self._rx_scheduled = True
+            self.world.loop.call_soon(self._rx_pump, context=self._client_ctx())
 
-    def _apply_s2c(self, item):
-        kind, data, tag = item
+    def _rx_pump(self):
+        self._rx_scheduled = False
+        if self.client_lost or not self._rx_due:
+            return
+        if self.transport._paused:
+            return  # resume_reading() re-arms the pump
         w = self.world
         now = w.loop.time()
+        kind = self._rx_due[0][0]
         if kind == "data":
-            w.log.add(now, "c_recv", self.id, len(data), tag)
-            if tag is not None:
+            datas = []
+            tags = []
+            while self._rx_due and self._rx_due[0][0] == "data":
+                _, data, tag = self._rx_due.popleft()
+                datas.append(data)
+                if tag is not None:
+                    tags.append(tag)
+            data = b"".join(datas)
+            w.log.add(now, "c_recv", self.id, len(data), tags[-1] if tags else None)
+            for tag in tags:
                 w.on_client_response(self, tag)
             self.protocol.data_received(data)
-        elif kind == "eof":
-            w.log.add(now, "c_eof", self.id)
-            w.on_client_conn_end(self, "eof")
-            keep = self.protocol.eof_received()
-            if not keep:
-                self.transport.close()
-        else:  # reset
-            w.log.add(now, "c_reset", self.id)
-            w.on_client_conn_end(self, "reset")
-            self.client_lost = True
-            self.transport._closing = True
-            self.protocol.connection_lost(ConnectionResetError("simulated reset"))
+        else:
+            self._rx_due.popleft()
+            if kind == "eof":
+                w.log.add(now, "c_eof", self.id)
+                w.on_client_conn_end(self, "eof")
+                keep = self.protocol.eof_received()
+                if not keep:
+                    self.transport.close()
+            else:  # reset
+                w.log.add(now, "c_reset", self.id)
+                w.on_client_conn_end(self, "reset")
+                self.client_lost = True
+                self.transport._closing = True
+                self.protocol.connection_lost(ConnectionResetError("simulated reset"))
+                return
+        if self._rx_due and not self.client_lost:
+            self._rx_scheduled = True
+            w.loop.call_soon(self._rx_pump, context=self._client_ctx())
 
 
 class SimNet:
